@@ -121,11 +121,25 @@ pub fn run_with(path: PathBuf, src: &str, opts: &Opts) -> Outcome {
     vm_verif::set_step_limit(0);
     allocator_verif::set_schedule(Schedule::Default, 1);
     let mut ex: Vec<(String, String)> = vec![];
+    let mut leak_post: Option<(crate::leakchk::Snap, crate::leakchk::Classes)> = None;
     if opts2.stats {
       let before = vm.verif_alloc_stats();
+      // C20 leak oracle (only under the checking global allocator): what the allocator owns before ..
+      let leak_pre = if crate::chkalloc::active() { Some(crate::leakchk::snapshot(&vm)) } else { None };
       allocator_verif::set_force_full(Some(true));
       vm.verif_collect();
       let after = vm.verif_alloc_stats();
+      // .. and after the forced full collection: every block it dropped must have been handed back
+      if let Some(pre) = leak_pre {
+        let post = crate::leakchk::snapshot(&vm);
+        let mut classes = crate::leakchk::Classes::default();
+        let (dropped, unreleased, first) = crate::leakchk::judge_collect(&pre, &post, &mut classes);
+        ex.push((
+          "released_by_full".to_string(),
+          format!("{{\"owned_before\":{},\"dropped\":{},\"unreleased\":{},\"first\":\"{}\"}}", pre.blocks.len(), dropped, unreleased, first),
+        ));
+        leak_post = Some((post, classes));
+      }
       let keys = vm.verif_intern_keys();
       allocator_verif::set_force_full(None);
       let show = |s: &allocator_verif::Stats| {
@@ -170,6 +184,15 @@ pub fn run_with(path: PathBuf, src: &str, opts: &Opts) -> Outcome {
     }
     ex.push(("scheduled_collections".to_string(), allocator_verif::scheduled_collections().to_string()));
     unsafe { std::mem::ManuallyDrop::drop(&mut vm) };
+    // C20 leak oracle: the vm is gone, so is every block its allocator still owned
+    if let Some((post, mut classes)) = leak_post {
+      let (owned, unreleased, first) = crate::leakchk::judge_teardown(&post, &mut classes);
+      ex.push((
+        "released_by_teardown".to_string(),
+        format!("{{\"owned\":{},\"unreleased\":{},\"first\":\"{}\"}}", owned, unreleased, first),
+      ));
+      ex.push(("block_classes".to_string(), crate::leakchk::classes_json(&classes)));
+    }
     // mismatches since the previous record of this process (the vm's destructors included)
     let total = crate::chkalloc::mismatches();
     let before = LAST_MISMATCHES.with(|l| l.replace(total));
